@@ -2,6 +2,7 @@ import Rbp.Proofs.Stats
 import Rbp.Proofs.RunSpec
 import Rbp.Proofs.F64
 import Rbp.Generated.Consts
+import Rbp.Props.C10
 /-!
 # C15 — every simplestats figure equals an independent recomputation over the range
 Integer figures are proved equal to closed expressions over the delivered block list; means are exact rationals
@@ -158,6 +159,16 @@ theorem printed_figures_close_small :
 example : F64.ratio 1 8 = "0.12" ∧ F64.ratio 3 8 = "0.38" ∧ F64.ratio 0 0 = "NaN" ∧ F64.ratio 5 0 = "inf" ∧
     F64.coins 18446744073709551615 = "184467440737.09552002" ∧ F64.share 3 7 = "42.86" := by
   refine ⟨?_, ?_, ?_, ?_, ?_, ?_⟩ <;> simp +decide [F64.ratio, F64.coins, F64.share, F64.fmt, F64.div, F64.mul, F64.ofNat, F64.rn, F64.c1em8, F64.upN, F64.downN, F64.rhe, F64.padLeft]
+
+/-- **every input.**  Whenever a `simplestats` run exits 0, the report is `statsLines` of the accumulator folded over exactly the
+    delivered blocks (integer figures by the theorems above, floating-point figures by `figures_of_accumulators`) -/
+theorem exit0_report_is_fold_over_delivered (o : Run.Opts) (key : Option W.Bytes) (kvs : List (W.Bytes × W.Bytes)) (files : List Run.BlkFile)
+    (coin : Run.Coin) (hcoin : Run.coinOf o.coin = some coin) (hcb : o.callback = "simplestats")
+    (h0 : (Run.run o key kvs files).exit = 0) :
+    (Run.run o key kvs files).stdout = statsLines ((Run.deliveredBlocks o key kvs files).foldl (statsBlock coin.version) {}) := by
+  have := (Rbp.Props.C10.exit0_output_is_callback_over_delivered o key kvs files coin hcoin h0).2
+  rw [this]
+  simp [Run.callbackOut, hcb]
 
 /-- non-vacuity: sizes whose sum exceeds 2^32 are summed exactly -/
 example : ([0x90000000, 0x90000000, 0x90000000] : List Nat).sum = 7247757312 ∧ 7247757312 > 2^32 := by decide
